@@ -77,6 +77,8 @@ pub enum Event {
     Expand { tid: u32, input: u32 },
     Perturb { tid: u32, n: u32, seed: u64 },
     Order { tid: u32, policy: u8, seed: u64 },
+    /// selftest only: report a stack and a heap address
+    Addr,
 }
 
 #[derive(Clone, Debug, PartialEq, Eq)]
@@ -178,6 +180,7 @@ pub struct HostLog {
     pub shim_flags: u32,
     pub fs_calls: u64,
     pub fs_names: String,
+    pub addrs: Vec<String>,
     pub raw: String,
 }
 
@@ -260,6 +263,7 @@ pub fn run_host(env: &Env, backend: Backend, build: Build, texts: &[(u32, String
             Event::Expand { tid, input } => plan.push_str(&format!("E {} {} {}\n", pos, tid, input)),
             Event::Perturb { tid, n, seed } => plan.push_str(&format!("P {} {} {}\n", tid, n, seed)),
             Event::Order { tid, policy, seed } => plan.push_str(&format!("O {} {} {}\n", tid, policy, seed)),
+            Event::Addr => plan.push_str("A\n"),
         }
     }
 
@@ -377,6 +381,7 @@ pub fn parse_log(out: &str) -> Result<HostLog, HarnessError> {
                 log.fs_names = unesc(f[13]);
                 saw_s = true;
             },
+            "A" => log.addrs.push(line.to_string()),
             "" => {},
             _ => return Err(HarnessError(format!("unparseable host log line: {:?}", &line[..line.len().min(120)]))),
         }
